@@ -119,6 +119,12 @@ pub fn check(case: &Case, st: &mut Stats) -> Result<(), Violation> {
         case: case.json_with(codes),
     };
     let (w, h, pads) = case.dims(codes.len());
+    // for a third of the images the previous call on this thread decodes a permutation of the same triples (result ignored)
+    if let Some(k) = prior_perm_kind(codes.iter().flat_map(|p| p.iter().map(|c| *c as u32)), codes.len()) {
+        let q = permuted(&codes, k, w);
+        let _ = catch(|| if case.u8_storage { decode_layout::<u8>(c, &q, false, w, h, pads).map(|_| ()) } else { decode_layout::<u16>(c, &q, false, w, h, pads).map(|_| ()) });
+        st.class("preceded_by_a_permutation_of_the_same_image", 1);
+    }
     let res = catch(|| {
         if case.u8_storage {
             decode_layout::<u8>(c, &codes, case.by_value, w, h, pads)
